@@ -677,6 +677,10 @@ func createConnHandler(
 							break
 						}
 					}
+					if inErr == io.EOF {
+						// The client half-closed: tell the backend.
+						clientStream.CloseSend() //nolint:errcheck
+					}
 					wg.Done()
 				}()
 			}
